@@ -119,3 +119,114 @@ pub open spec fn finals_sound(m: Map<State, State>, old_f: Set<usize>, new_f: Se
 pub open spec fn finals_exact(m: Map<State, State>, old_f: Set<usize>, new_f: Set<usize>) -> bool {
     forall|u: usize| #[trigger] new_f.contains(u) ==> exists|s: State| #[trigger] m.contains_key(s) && old_f.contains(s.ix as usize) && m[s].ix as usize == u
 }
+
+// ---- trie insertion (Dfa::insert / return_next_state / find_next_state / add_new_state) ----
+// value() of a grapheme: the concatenation of its chars (std join, uninterpreted)
+pub uninterp spec fn joined(chars: Seq<String>) -> Seq<char>;
+// two labels are the same trie symbol: same text, same repetition bounds (flags are presentational and equal within one build)
+pub open spec fn label_eq(a: Grapheme, b: Grapheme) -> bool { joined(a.chars@) == joined(b.chars@) && a.min == b.min && a.max == b.max }
+// data invariant of labels before repetition ranges are merged: exact counts only
+pub open spec fn exact_label(g: Grapheme) -> bool { g.min == g.max && g.max >= 1 }
+pub open spec fn edges_exact(e: Map<(State, State), Grapheme>) -> bool { forall|a: State, b: State| #[trigger] e.contains_key((a, b)) ==> exact_label(e[(a, b)]) }
+pub open spec fn edges_closed(e: Map<(State, State), Grapheme>, nodes: Set<State>) -> bool { forall|a: State, b: State| #[trigger] e.contains_key((a, b)) ==> nodes.contains(a) && nodes.contains(b) }
+// a path from s to t whose edge labels spell gs
+pub open spec fn path(e: Map<(State, State), Grapheme>, s: State, gs: Seq<Grapheme>, t: State) -> bool
+    decreases gs.len()
+{
+    if gs.len() == 0 { s == t } else { exists|u: State| #[trigger] e.contains_key((s, u)) && label_eq(e[(s, u)], gs[0]) && path(e, u, gs.drop_first(), t) }
+}
+pub proof fn lemma_path_snoc(e: Map<(State, State), Grapheme>, s: State, gs: Seq<Grapheme>, t: State, g: Grapheme, u: State)
+    requires path(e, s, gs, t), e.contains_key((t, u)), label_eq(e[(t, u)], g)
+    ensures path(e, s, gs.push(g), u)
+    decreases gs.len()
+{
+    if gs.len() == 0 {
+        assert(gs.push(g).drop_first() =~= Seq::<Grapheme>::empty());
+        assert(path(e, u, gs.push(g).drop_first(), u));
+        assert(e.contains_key((s, u)) && label_eq(e[(s, u)], gs.push(g)[0]));
+    } else {
+        let v = choose|v: State| #[trigger] e.contains_key((s, v)) && label_eq(e[(s, v)], gs[0]) && path(e, v, gs.drop_first(), t);
+        lemma_path_snoc(e, v, gs.drop_first(), t, g, u);
+        assert(gs.push(g).drop_first() =~= gs.drop_first().push(g));
+        assert(e.contains_key((s, v)) && label_eq(e[(s, v)], gs.push(g)[0]));
+    }
+}
+pub open spec fn submap(e0: Map<(State, State), Grapheme>, e1: Map<(State, State), Grapheme>) -> bool {
+    forall|a: State, b: State| #[trigger] e0.contains_key((a, b)) ==> e1.contains_key((a, b)) && e1[(a, b)] == e0[(a, b)]
+}
+pub proof fn lemma_path_mono(e0: Map<(State, State), Grapheme>, e1: Map<(State, State), Grapheme>, s: State, gs: Seq<Grapheme>, t: State)
+    requires path(e0, s, gs, t), submap(e0, e1)
+    ensures path(e1, s, gs, t)
+    decreases gs.len()
+{
+    if gs.len() > 0 {
+        let v = choose|v: State| #[trigger] e0.contains_key((s, v)) && label_eq(e0[(s, v)], gs[0]) && path(e0, v, gs.drop_first(), t);
+        lemma_path_mono(e0, e1, v, gs.drop_first(), t);
+        assert(e1.contains_key((s, v)) && label_eq(e1[(s, v)], gs[0]));
+    }
+}
+
+pub open spec fn scanned(els: Seq<State>, k: int, e: Map<(State, State), Grapheme>, cur: State, g: Grapheme) -> bool {
+    forall|i: int| 0 <= i < k ==> !label_eq(e[(cur, #[trigger] els[i])], g)
+}
+pub open spec fn label_absent(e: Map<(State, State), Grapheme>, cur: State, g: Grapheme) -> bool {
+    forall|t: State| #[trigger] e.contains_key((cur, t)) ==> !label_eq(e[(cur, t)], g)
+}
+pub broadcast proof fn lemma_scanned_all(els: Seq<State>, k: int, e: Map<(State, State), Grapheme>, cur: State, g: Grapheme)
+    requires #[trigger] nb_ok(els, cur, e), #[trigger] scanned(els, k, e, cur, g), k == els.len()
+    ensures label_absent(e, cur, g)
+{
+    assert forall|t: State| #[trigger] e.contains_key((cur, t)) implies !label_eq(e[(cur, t)], g) by {
+        assert(els.contains(t));
+        let i = choose|i: int| 0 <= i < els.len() && els[i] == t;
+        assert(els[i] == t);
+    }
+}
+
+// ---- soundness view of the trie (C01): an edge label may cover more repetition counts than the inserted symbol, never fewer
+pub open spec fn label_covers(e: Grapheme, g: Grapheme) -> bool { joined(e.chars@) == joined(g.chars@) && e.min <= g.min && g.max <= e.max }
+pub open spec fn edges_cover(e0: Map<(State, State), Grapheme>, e1: Map<(State, State), Grapheme>) -> bool {
+    forall|a: State, b: State| #[trigger] e0.contains_key((a, b)) ==> e1.contains_key((a, b)) && label_covers(e1[(a, b)], e0[(a, b)])
+}
+pub open spec fn path_cov(e: Map<(State, State), Grapheme>, s: State, gs: Seq<Grapheme>, t: State) -> bool
+    decreases gs.len()
+{
+    if gs.len() == 0 { s == t } else { exists|u: State| #[trigger] e.contains_key((s, u)) && label_covers(e[(s, u)], gs[0]) && path_cov(e, u, gs.drop_first(), t) }
+}
+pub proof fn lemma_path_cov_snoc(e: Map<(State, State), Grapheme>, s: State, gs: Seq<Grapheme>, t: State, g: Grapheme, u: State)
+    requires path_cov(e, s, gs, t), e.contains_key((t, u)), label_covers(e[(t, u)], g)
+    ensures path_cov(e, s, gs.push(g), u)
+    decreases gs.len()
+{
+    if gs.len() == 0 {
+        assert(gs.push(g).drop_first() =~= Seq::<Grapheme>::empty());
+        assert(path_cov(e, u, gs.push(g).drop_first(), u));
+        assert(e.contains_key((s, u)) && label_covers(e[(s, u)], gs.push(g)[0]));
+    } else {
+        let v = choose|v: State| #[trigger] e.contains_key((s, v)) && label_covers(e[(s, v)], gs[0]) && path_cov(e, v, gs.drop_first(), t);
+        lemma_path_cov_snoc(e, v, gs.drop_first(), t, g, u);
+        assert(gs.push(g).drop_first() =~= gs.drop_first().push(g));
+        assert(e.contains_key((s, v)) && label_covers(e[(s, v)], gs.push(g)[0]));
+    }
+}
+pub proof fn lemma_path_cov_mono(e0: Map<(State, State), Grapheme>, e1: Map<(State, State), Grapheme>, s: State, gs: Seq<Grapheme>, t: State)
+    requires path_cov(e0, s, gs, t), edges_cover(e0, e1)
+    ensures path_cov(e1, s, gs, t)
+    decreases gs.len()
+{
+    if gs.len() > 0 {
+        let v = choose|v: State| #[trigger] e0.contains_key((s, v)) && label_covers(e0[(s, v)], gs[0]) && path_cov(e0, v, gs.drop_first(), t);
+        lemma_path_cov_mono(e0, e1, v, gs.drop_first(), t);
+        assert(e1.contains_key((s, v)) && label_covers(e1[(s, v)], gs[0]));
+    }
+}
+pub proof fn lemma_edges_cover_trans(e0: Map<(State, State), Grapheme>, e1: Map<(State, State), Grapheme>, e2: Map<(State, State), Grapheme>)
+    requires edges_cover(e0, e1), edges_cover(e1, e2)
+    ensures edges_cover(e0, e2)
+{
+    assert forall|a: State, b: State| #[trigger] e0.contains_key((a, b)) implies e2.contains_key((a, b)) && label_covers(e2[(a, b)], e0[(a, b)]) by {
+        assert(e1.contains_key((a, b)));
+    }
+}
+
+pub open spec fn edges_wf(e: Map<(State, State), Grapheme>) -> bool { forall|a: State, b: State| #[trigger] e.contains_key((a, b)) ==> e[(a, b)].min <= e[(a, b)].max }
